@@ -886,8 +886,140 @@ def _inplace_methods(tree):
     return T().visit(tree)
 
 
+def _decorator_calls(tree):
+    """`def g(..): ..` directly followed by `h = D(g)` (g mentioned nowhere else in the enclosing function) is the decorated definition
+    `@D def h(..): ..` - the call form and the decorator form of wrapping a local function read the same."""
+    for owner in ast.walk(tree):
+        if not isinstance(owner, (ast.FunctionDef, ast.AsyncFunctionDef)):
+            continue
+        for blk_owner in ast.walk(owner):
+            for fld in ("body", "orelse", "finalbody"):
+                b = getattr(blk_owner, fld, None)
+                if not (isinstance(b, list) and b and isinstance(b[0], ast.stmt)):
+                    continue
+                i = 0
+                while i + 1 < len(b):
+                    d, a = b[i], b[i + 1]
+                    if isinstance(d, ast.FunctionDef) and isinstance(a, ast.Assign) and len(a.targets) == 1 and isinstance(a.targets[0], ast.Name) \
+                            and isinstance(a.value, ast.Call) and len(a.value.args) == 1 and not a.value.keywords and isinstance(a.value.args[0], ast.Name) \
+                            and a.value.args[0].id == d.name and not isinstance(a.value.func, ast.Name):
+                        uses = [n for n in ast.walk(owner) if isinstance(n, ast.Name) and n.id == d.name]
+                        inner = [n for n in ast.walk(d) if isinstance(n, ast.Name) and n.id == d.name]
+                        hname = a.targets[0].id
+                        clash = hname != d.name and any((isinstance(n, ast.Name) and n.id == hname and n is not a.targets[0]) for n in ast.walk(d))
+                        if len(uses) == 1 and not inner and not clash:
+                            d.decorator_list = [a.value.func] + list(d.decorator_list)
+                            d.name = hname
+                            del b[i + 1]
+                            continue
+                    i += 1
+    return tree
+
+
+def _specialise_on_flags(tree):
+    """A function body that, from some statement on, tests the same local flag (a bare name that is not re-bound afterwards) more than
+    once - `x = A if flag else B`, `if flag: ..`, `return P if flag else Q` - is the two-armed form
+        if flag: <rest of the body with flag = True>  else: <rest of the body with flag = False>
+    (tail duplication; evaluating a name has no effect, so this is behaviour preserving).  One `if flag: .. else: ..` with everything
+    spelled out per arm and several small conditionals on the same flag then read the same."""
+    import copy as _copy
+
+    class Fold(ast.NodeTransformer):
+        def __init__(self, name, value):
+            self.name, self.value = name, value
+
+        def _truth(self, t):
+            if isinstance(t, ast.Name) and t.id == self.name:
+                return self.value
+            if isinstance(t, ast.UnaryOp) and isinstance(t.op, ast.Not) and isinstance(t.operand, ast.Name) and t.operand.id == self.name:
+                return not self.value
+            return None
+
+        def visit_IfExp(self, node):
+            self.generic_visit(node)
+            tv = self._truth(node.test)
+            return node if tv is None else (node.body if tv else node.orelse)
+
+        def visit_If(self, node):
+            self.generic_visit(node)
+            tv = self._truth(node.test)
+            if tv is None:
+                return node
+            return (node.body if tv else node.orelse) or [ast.copy_location(ast.Pass(), node)]
+
+        def visit_FunctionDef(self, node):
+            return node          # closures keep reading the variable
+
+        def visit_Lambda(self, node):
+            return node
+
+    def tests_of(st, name):
+        k = 0
+        for n in _own_walk_nodes(st):
+            t = n.test if isinstance(n, (ast.If, ast.IfExp)) else None
+            if t is not None and ((isinstance(t, ast.Name) and t.id == name) or
+                                  (isinstance(t, ast.UnaryOp) and isinstance(t.op, ast.Not) and isinstance(t.operand, ast.Name) and t.operand.id == name)):
+                k += 1
+        return k
+
+    def _own_walk_nodes(st):
+        stack = [st]
+        while stack:
+            n = stack.pop()
+            yield n
+            for ch in ast.iter_child_nodes(n):
+                if not isinstance(ch, (ast.FunctionDef, ast.AsyncFunctionDef, ast.Lambda, ast.ClassDef)):
+                    stack.append(ch)
+
+    for fn in [n for n in ast.walk(tree) if isinstance(n, (ast.FunctionDef, ast.AsyncFunctionDef))]:
+        body = fn.body
+        done = False
+        for i, st in enumerate(body):
+            if done:
+                break
+            if isinstance(st, (ast.For, ast.While, ast.Try, ast.With, ast.FunctionDef, ast.ClassDef)):
+                continue
+            cands = set()
+            for n in _own_walk_nodes(st):
+                t = n.test if isinstance(n, (ast.If, ast.IfExp)) else None
+                if isinstance(t, ast.UnaryOp) and isinstance(t.op, ast.Not):
+                    t = t.operand
+                if isinstance(t, ast.Name):
+                    cands.add(t.id)
+            for name in sorted(cands):
+                tail = body[i:]
+                if sum(tests_of(x, name) for x in tail) < 2:
+                    continue
+                # only the "merged branches" shape: the function's final statement is `return P if flag else Q`
+                last = body[-1]
+                if not (isinstance(last, ast.Return) and isinstance(last.value, ast.IfExp) and tests_of(ast.Expr(value=ast.IfExp(test=last.value.test, body=ast.Constant(0), orelse=ast.Constant(0))), name) == 1):
+                    continue
+                if any(isinstance(n, ast.Name) and n.id == name and isinstance(n.ctx, (ast.Store, ast.Del)) for x in tail for n in ast.walk(x)):
+                    continue
+                if any(isinstance(n, (ast.Nonlocal, ast.Global)) for n in ast.walk(fn)):
+                    continue
+                # the flag must be a plain local (assigned in this function or a parameter), and the tail small enough to duplicate
+                if sum(1 for x in tail for _ in ast.walk(x)) > 1500:
+                    continue
+                arms = []
+                for val in (True, False):
+                    arm = []
+                    for x in tail:
+                        r = Fold(name, val).visit(_copy.deepcopy(x))
+                        arm.extend(r if isinstance(r, list) else [r])
+                    arms.append(arm or [ast.Pass()])
+                new_if = ast.copy_location(ast.If(test=ast.Name(id=name, ctx=ast.Load()), body=arms[0], orelse=arms[1]), st)
+                fn.body = body[:i] + [new_if]
+                ast.fix_missing_locations(fn)
+                done = True
+                break
+    return tree
+
+
 def normal_form(tree):
     """the load-time normal form of a module (see DESIGN 2.1b)"""
+    tree = _decorator_calls(tree)
+    tree = _specialise_on_flags(tree)
     tree = _strip_local_annotations(tree)
     tree = _inplace_methods(tree)
     tree = _unroll_constant_tables(tree)
